@@ -131,12 +131,18 @@ func runChild(line string) string {
 	if i := strings.LastIndexByte(res, '\n'); i >= 0 {
 		res = res[i+1:]
 	}
+	if err == nil && strings.HasPrefix(res, "!") {
+		return res
+	}
 	if err != nil || !strings.HasPrefix(res, "id=") {
 		tail := strings.ReplaceAll(errb.String(), "\n", " | ")
 		if len(tail) > 1500 {
 			tail = tail[len(tail)-1500:]
 		}
-		return "!died " + fmt.Sprint(err) + " " + tail
+		if len(res) > 300 {
+			res = res[:300]
+		}
+		return "!died " + fmt.Sprint(err) + " stdout=" + strings.ReplaceAll(res, "\n", " | ") + " stderr=" + tail
 	}
 	return res
 }
